@@ -598,12 +598,17 @@ Definition identify_bracket_pairs_gen (legacy : bool) (text : list N) (sq : irs)
 Definition identify_bracket_pairs := identify_bracket_pairs_gen false.
 
 (* the enclosed-character scan, implicit.rs:316-344 *)
-Fixpoint n0_scan (pc : list bclass) (ecls : bclass) (not_e : bclass) (pair_end : nat) (idxs : list nat)
-         (found_e found_not_e : bool) : res (bool * bool) :=
+(* repaired (D11): an X9-removed position is not an enclosed character, whatever N0 wrote into its
+   working class while passing over it *)
+Fixpoint n0_scan (legacy : bool) (oc pc : list bclass) (ecls : bclass) (not_e : bclass) (pair_end : nat)
+         (idxs : list nat) (found_e found_not_e : bool) : res (bool * bool) :=
   match idxs with
   | [] => Ok (found_e, found_not_e)
   | i :: rest =>
     if pair_end <=? i then Ok (found_e, found_not_e) else
+    o <- get 326 oc i ;;
+    if removed_by_x9 o && negb legacy
+    then n0_scan legacy oc pc ecls not_e pair_end rest found_e found_not_e else
     c <- get 325 pc i ;;
     let '(fe, fn) :=
       if c =c ecls then (true, found_not_e)
@@ -611,7 +616,7 @@ Fixpoint n0_scan (pc : list bclass) (ecls : bclass) (not_e : bclass) (pair_end :
       else if (c =c EN) || (c =c AN)
            then (if ecls =c L then (found_e, true) else (true, found_not_e))
       else (found_e, found_not_e) in
-    if fe then Ok (fe, fn) else n0_scan pc ecls not_e pair_end rest fe fn
+    if fe then Ok (fe, fn) else n0_scan legacy oc pc ecls not_e pair_end rest fe fn
   end.
 
 (* NSM fix-up after a changed bracket, implicit.rs:407-423 *)
@@ -642,7 +647,7 @@ Definition n0_pair (legacy : bool) (backwards : list run -> nat -> nat -> res (l
   sub <- t_subrange 311 e text (bp_start pair) (bp_end pair) ;;
   start_char_len <- first_char_len 311 sub ;;
   fw <- iter_forwards_from runs (bp_start pair + start_char_len) (bp_start_run pair) ;;
-  '(found_e, found_not_e) <- n0_scan pc ecls not_e (bp_end pair) fw false false ;;
+  '(found_e, found_not_e) <- n0_scan legacy oc pc ecls not_e (bp_end pair) fw false false ;;
   class_to_set <-
     (if found_e then Ok (Some ecls)
      else if found_not_e then
